@@ -28,6 +28,8 @@ MODELS = {
     ("ver2", "thorough"): "MC_Graph_ver2_t.cfg",
     ("extern", "quick"): "MC_Graph_extern_q.cfg",
     ("extern", "thorough"): "MC_Graph_extern_t.cfg",
+    ("scoped", "quick"): "MC_Graph_scoped_q.cfg",
+    ("scoped", "thorough"): "MC_Graph_scoped_t.cfg",
 }
 
 
@@ -193,7 +195,8 @@ def run_property(prop, tier, report):
     # anonymous compound tuple element), creation operations only
     # dup: versions of one package, exports of one instance sharing a function type, a compound result type
     # extern: extern names that differ in case only, locator names, a name bound to a kind of item
-    libs = ["core", "ver", "shape", "dup", "ver2", "extern"]
+    # scoped: a function over a type exported next to it, aliased out of its instance / imported on its own
+    libs = ["core", "ver", "shape", "dup", "ver2", "extern", "scoped"]
     total_states = total_trans = 0
     summaries = {}
     samples = []
